@@ -59,12 +59,30 @@ StepAddPart(e) ==
                        [l |-> l, inv |-> "CountExact", class |-> cls])
            \cup FailIf(e.added # (post # slots), [l |-> l, inv |-> "AddedIffChanged", class |-> cls])
 
+\* several goroutines delivered genuine parts (indices e.delivered, with repeats) concurrently: the outcome
+\* must be that of a sequential order — for genuine parts every order gives the same result
+StepConcurrent(e) ==
+  LET idx  == {e.delivered[i] : i \in DOMAIN e.delivered}
+      want == [i \in 1..Len(data) |-> IF (i - 1) \in idx THEN data[i] ELSE Nil]
+      post == e.post.slots
+  IN /\ slots' = post
+     /\ data' = data
+     /\ drift' = drift
+     /\ viol' = viol
+           \cup FailIf(post # want, [l |-> l, inv |-> "PartBinds", class |-> "concurrent_delivery"])
+           \cup FailIf(e.post.count # Count(post) \/ e.post.complete # Complete(post),
+                       [l |-> l, inv |-> "CountExact", class |-> "concurrent_delivery"])
+           \cup FailIf(e.added_count # Cardinality(idx), [l |-> l, inv |-> "AddedIffChanged", class |-> "concurrent_delivery"])
+           \cup FailIf(e.post.complete /\ (post # data \/ e.post.reasm # "equal"),
+                       [l |-> l, inv |-> "Reassembles", class |-> "concurrent_delivery"])
+
 Step ==
   /\ l <= Len(Trace)
   /\ LET e == Trace[l] IN
        CASE e.ev = "Verify"  -> StepVerify(e)
          [] e.ev = "Reset"   -> StepReset(e)
          [] e.ev = "AddPart" -> StepAddPart(e)
+         [] e.ev = "ConcurrentAdd" -> StepConcurrent(e)
   /\ l' = l + 1
 
 Finish ==
